@@ -19,6 +19,9 @@ fn drive(c: &Case, cnt: &mut Counts, with_timer_api: bool) {
     // in-domain, terminating cases only (screened by the reference model)
     let refr = match rinterp::solve(&c.prog, &c.qname, &c.qargs, 3_000, 12) { Ok(r) => r, Err(_) => { cnt.skipped += 1; return; } };
     cnt.programs += 1;
+    let nontrivial = refr.stats.cuts + refr.stats.not_true + refr.stats.not_false > 0 || refr.stats.clause_retries + refr.stats.or_retries > 0;
+    println!("MIRI-CASE {} {}", hash_str(&c.text()), if nontrivial { 1 } else { 0 });
+    if cnt.programs <= 2 { println!("MIRI-SAMPLE {}", suiron_monitor::json::esc(&c.text())); }
     cnt.cuts += refr.stats.cuts; cnt.nots += refr.stats.not_true + refr.stats.not_false; cnt.prints += refr.stats.prints;
     let kb = program_to_kb(&c.prog);
     let r = std::panic::catch_unwind(std::panic::AssertUnwindSafe(|| {
@@ -59,19 +62,21 @@ fn timer_cases(cnt: &mut Counts, k: u64) {
                             parse_rule("trap($X) :- not(spin), n($X), !.").unwrap()]);
     for i in 0..k {
         let q = ["slow($X)", "trap($X)", "n($X)"][(i % 3) as usize];
+        println!("MIRI-CASE {} 1", hash_str(&format!("timer case {} {}", q, i)));
         // (1) timer fires during the search
+        // (the query is built first: building one clears the stop flag)
+        let sn = make_base_node(Rc::new(parse_query(q).unwrap()), &kb);
         let timer = start_query_timer(1);
         cnt.timers_started += 1;
-        let sn = make_base_node(Rc::new(parse_query(q).unwrap()), &kb);
         let mut n = 0;
         while let Some(_) = next_solution(Rc::clone(&sn)) { n += 1; if n > 20 { break; } }
         cnt.next_solution += n + 1;
         if query_stopped() { cnt.timer_fired_during_search += 1; }
         cancel_timer(timer);
         // (2) timer fires after a finished search
+        let sn = make_base_node(Rc::new(parse_query("n(3)").unwrap()), &kb);
         let timer = start_query_timer(1);
         cnt.timers_started += 1;
-        let sn = make_base_node(Rc::new(parse_query("n(3)").unwrap()), &kb);
         let _ = next_solution(Rc::clone(&sn));
         let mut spins = 0;
         while !query_stopped() && spins < 200 { std::thread::sleep(std::time::Duration::from_millis(1)); spins += 1; }
